@@ -282,7 +282,7 @@ def c03(run):
     replay_ids = None
     if run.replay:
         replay_ids = set(json.load(open(run.replay)).get("case", {}).get("ids", []))
-    chosen = [d for k, d in enumerate(defs) if d.get("lint", True) and ((d["id"][0] in "rga") or k % step == 0)]
+    chosen = [d for k, d in enumerate(defs) if d.get("lint", True) and ((d["id"][0] in "rgab") or k % step == 0)]
     if replay_ids is not None:
         chosen = [d for d in defs if d["id"] in replay_ids or any(u in replay_ids for u in d.get("uses", []))]
         # groups need their traits
@@ -452,12 +452,21 @@ def c04(run):
         if len(samples) < 3 and n_structs >= 2:
             samples.append({"sub": "expansion-determinism", "case": {"id": d["id"], "src": d["src"][:300], "structs": [(s["name"], [f[0] for f in s["fields"]]) for s in ref[d["id"]][:4]]}})
         # one function pointer per exported method, in declaration order
-        if d.get("exported") is not None and isinstance(ref.get(d["id"]), list) and not any(v["key"] == "C04:vtable-order" for v in viol):
+        if d.get("exported") is not None and isinstance(ref.get(d["id"]), list) and not any(v["key"].startswith("C04:vtable-order") for v in viol):
             vt = [s for s in ref[d["id"]] if s["name"] == d["trait"] + "Vtbl"]
             got = [f[0] for f in vt[0]["fields"] if not f[0].startswith("_")] if vt else None
             order_checked += 1
             if len(d["exported"]) >= 2:
                 order_nt += 1
+            # ... and the #[cglue_trait_ext] expansion of the same definition has the same vtable
+            ext = ref.get(d["id"] + "#ext")
+            if isinstance(ext, list) and got == d["exported"]:
+                evt = [s for s in ext if s["name"] == d["trait"] + "Vtbl"]
+                egot = [f[0] for f in evt[0]["fields"] if not f[0].startswith("_")] if evt else None
+                if egot != d["exported"]:
+                    viol.append({"sub": "expansion-determinism", "key": "C04:vtable-order-ext",
+                                 "what": f"definition {d['id']} ({d.get('label')}) expanded through #[cglue_trait_ext]: the vtable struct has the function pointers {egot}; the exported methods in declaration order are {d['exported']}",
+                                 "case": {"id": d["id"], "src": d["src"], "def": d}})
             if got != d["exported"]:
                 viol.append({"sub": "expansion-determinism", "key": "C04:vtable-order",
                              "what": f"definition {d['id']} ({d.get('label')}): the generated vtable struct has the function pointers {got}; the exported methods in declaration order are {d['exported']}",
